@@ -247,6 +247,23 @@ def job(args):
                                     f'{ctx} shape {shape}, {nds} dataset(s), classes {assign}: verdict {bool(res)}, all(oracles) {got_orc}, reference {exp}',
                                     {'shape': shape, 'classes': assign, 'n_datasets': nds, 'alpha': alpha, 'ndf': ndf},
                                     size=len(assign))
+        # the same test object evaluated again after one of its datasets was edited in place: the verdict follows the data
+        for before, after in itertools.permutations(names, 2):
+            for nds in (1, 2):
+                dsr = _mk([1.0] * 3, [0.1] * 3, (3,))
+                others = [_mk([CLASSES['pass'][2]] * 3, [CLASSES['pass'][3]] * 3, (3,)) for _ in range(nds)]
+                others[-1].value[1], others[-1].error[1] = CLASSES[before][2], CLASSES[before][3]
+                test = TestStudent(dsr, *others, name='c05', alpha=alpha, ndf=ndf)
+                first = bool(test.evaluate())
+                others[-1].value[1], others[-1].error[1] = CLASSES[after][2], CLASSES[after][3]
+                again = test.evaluate()
+                rep.case(nontrivial=('re-evaluate', before, after, nds, alpha, ndf), outcome=('re-evaluate', bool(again)))
+                got_orc = all(bool(np.all(o)) for o in again.oracles())
+                if first != cref[before] or bool(again) != cref[after] or got_orc != cref[after]:
+                    rep.violate(f'C05|verdict|re-evaluated-after-edit|{before}->{after}',
+                                f'{ctx}: bin 1 of the last dataset edited from class {before!r} to {after!r} between two evaluate() calls of one '
+                                f'test: verdicts {first}, {bool(again)} (oracles {got_orc}), reference {cref[before]}, {cref[after]}',
+                                {'re-evaluation': [before, after], 'n_datasets': nds, 'alpha': alpha, 'ndf': ndf})
         rep.sample({'aggregate': {'shape': (2, 2), 'classes': ['pass', 'fail', 'undef', 'pass'], 'alpha': alpha, 'ndf': ndf}})
     rep.sample({'bin(v1,e1,v2,e2)': bins[len(bins) // 3], 'alpha': alpha, 'ndf': ndf, 'reference_t': refs[len(bins) // 3]})
     return rep
